@@ -916,4 +916,16 @@ theorem Tnuc_order_of_run_2D (p : Par ℝ) (f : Flags) (hw : WFGrid2D p) (T0C : 
   · intro hneg
     rw [h2, Tnuc_kin_else_2D _ _ hneg]; norm_num
 
+/-- the 2D hypotheses are satisfiable: a well-formed grid (the code's 30 × 15 on a 5 cm vial) -/
+theorem nonvacuous_2D : ∃ p : S2D.Par ℝ, WFGrid2D p ∧ 2 ≤ p.Nz ∧ 2 ≤ p.Nr := by
+  refine ⟨{ pi := 3, height := 1 / 20, diameter := 1 / 20, V := 1, rho_l := 1, mass := 1, mass_water := 1,
+            mass_solute := 0, lambda_w := 1, lambda_i := 1, lambda_s := 1, cp_w := 1, cp_i := 1, cp_s := 1,
+            cp_solution := 1, solid_fraction := 0, T_eq := 0, k_f := 1, M_s := 1, depression := 0, kb := 1,
+            b := 2, k_B := 1, Dh := 1, K_shelf := 1, config := .shelf, p_vac := 0, kappa := 0, dHe := 0,
+            m_water := 0, t_vac_start := 0, t_vac_duration := 0, air_gap := 0, lambda_air := 1 }, ?_, ?_, ?_⟩
+  · refine ⟨by norm_num, by norm_num, by norm_num, ?_, by norm_num, by norm_num⟩
+    simp only [S2D.radius, S2D.two, ofNat'_real]; norm_num
+  · norm_num
+  · norm_num
+
 end Snow.C08
